@@ -738,6 +738,8 @@ bool GennaroJareckiKrawczykRabinDKG::Generate
 							err << "P_" << i << ": shares adjusted 1(d) from P_" << j << std::endl;
 							mpz_set(s_ij[j][i], s);
 							mpz_set(sprime_ij[j][i], sprime);
+							// refresh the cached value $g^{s_{ji}}$ used in step 4(b)
+							tmcg_mpz_fspowm(fpowm_table_g, g__s_ij[j][i], g, s, p);
 						}
 
 					}
@@ -848,8 +850,8 @@ bool GennaroJareckiKrawczykRabinDKG::Generate
 		{
 			mpz_set_ui(rhs, *it);
 			rbc->Broadcast(rhs);
-			rbc->Broadcast(s_ij[i][*it]);
-			rbc->Broadcast(sprime_ij[i][*it]);
+			rbc->Broadcast(s_ij[*it][i]); // the shares received from the accused party
+			rbc->Broadcast(sprime_ij[*it][i]);
 		}
 		mpz_set_ui(rhs, n); // broadcast end marker
 		rbc->Broadcast(rhs);
@@ -859,7 +861,7 @@ bool GennaroJareckiKrawczykRabinDKG::Generate
 		//     compute $z_i$, $f_i(z)$, $A_{ik}$ for $k = 0, \ldots, t$
 		//     in the clear.
 		// Note that in this section the indicies $i$ and $j$ are exchanged for convenience.
-		complaints.clear();
+		// (my own complaints are valid by construction and count as well)
 		for (size_t j = 0; j < n; j++)
 		{
 			if ((j != i) && (std::find(QUAL.begin(), QUAL.end(), j)	!= QUAL.end()))
@@ -905,7 +907,10 @@ bool GennaroJareckiKrawczykRabinDKG::Generate
 						complaints.push_back(j);
 						mpz_set_ui(bar, 0L); // indicates an error
 					}
-					// verify complaint, i.e. (4) holds (5) not.
+					// verify complaint, i.e. (4) holds (5) not, for the shares
+					// $s_{who,j}$, $s\prime_{who,j}$ that $P_j$ received from $P_{who}$
+					mpz_t s_c;
+					mpz_init_set(s_c, foo);
 					// compute LHS for the check
 					tmcg_mpz_fpowm(fpowm_table_g, lhs, g, foo, p);
 					tmcg_mpz_fpowm(fpowm_table_h, bar, h, bar, p);
@@ -915,32 +920,30 @@ bool GennaroJareckiKrawczykRabinDKG::Generate
 					mpz_set_ui(rhs, 1L);
 					for (size_t k = 0; k <= t; k++)
 					{
-						mpz_ui_pow_ui(foo, who + 1, k); // adjust index $i$ in computation
-						mpz_powm(bar, C_ik[j][k], foo, p);
+						mpz_ui_pow_ui(foo, j + 1, k); // adjust index $j$ in computation
+						mpz_powm(bar, C_ik[who][k], foo, p);
 						mpz_mul(rhs, rhs, bar);
 						mpz_mod(rhs, rhs, p);
 					}
 					// check equation (4)
-					if (mpz_cmp(lhs, rhs))
-					{
-						err << "P_" << i << ": checking 4(c)(4) failed; complaint against P_" << j << std::endl;
-						complaints.push_back(j);
-					}
+					bool eq4 = (mpz_cmp(lhs, rhs) == 0);
 					// compute LHS for the check
-					tmcg_mpz_fpowm(fpowm_table_g, lhs, g, foo, p);
+					tmcg_mpz_fpowm(fpowm_table_g, lhs, g, s_c, p);
+					mpz_clear(s_c);
 					// compute RHS for the check
 					mpz_set_ui(rhs, 1L);
 					for (size_t k = 0; k <= t; k++)
 					{
-						mpz_ui_pow_ui(foo, i + 1, k); // adjust index $i$ in computation
-						mpz_powm(bar, A_ik[j][k], foo, p);
+						mpz_ui_pow_ui(foo, j + 1, k); // adjust index $j$ in computation
+						mpz_powm(bar, A_ik[who][k], foo, p);
 						mpz_mul(rhs, rhs, bar);
 						mpz_mod(rhs, rhs, p);
 					}
 					// check equation (5)
-					if (mpz_cmp(lhs, rhs))
+					bool eq5 = (mpz_cmp(lhs, rhs) == 0);
+					if (eq4 && !eq5)
 					{
-						err << "P_" << i << ": checking 4(c)(5) failed; complaint against P_" << who;
+						err << "P_" << i << ": valid complaint against P_" << who;
 						if (std::find(QUAL.begin(), QUAL.end(), who) != QUAL.end())
 							complaints.push_back(who);
 						else
@@ -949,7 +952,7 @@ bool GennaroJareckiKrawczykRabinDKG::Generate
 					}
 					else
 					{
-						err << "P_" << i << ": checking 4(c)(5) not failed; complaint against P_" << j << std::endl;
+						err << "P_" << i << ": invalid complaint (4)=" << eq4 << " (5)=" << eq5 << "; complaint against P_" << j << std::endl;
 						complaints.push_back(j);
 					}
 					cnt++;
